@@ -402,6 +402,7 @@ def run(res, facts, tier):
     c19_own.r8_handover(res, facts, own)
     c19_own.r9_destruct_only(res, facts)
     c19_own.r13_slot_stores(res, facts)
+    c19_own.r14_move_within(res, facts)
 
 
 # ----------------------------------------------------------------------------------------------- R10: a constructed object reaches an owner on every path
